@@ -76,7 +76,7 @@ func (g *gen) opts(typ string) []Opt {
 		}
 	}
 	if !g.noComments && g.dialect == "mysql" && g.rng.Intn(5) == 0 {
-		os = append(os, Opt{Kind: "comment", Val: g.pick([]string{"note", "the key", "it's", "PRIMARY KEY of x"})})
+		os = append(os, Opt{Kind: "comment", Val: g.pick([]string{"note", "the key", "it's", "PRIMARY KEY of x", "the primary key", "a PRIMARY KEY b"})})
 	}
 	return os
 }
